@@ -5,7 +5,11 @@ branch row and solved voltages) predicts pl_mw/ql_mvar of the result tables, and
 C03_pi_loss_identity (series resistance + shunt conductances) must give the same number.
 Oracle: on the real result tables  pl_mw = p_from + p_to (trafo3w: hv+mv+lv),  pl_mw >= -tol for every branch,
 sum(generation) - sum(consumption) = sum(pl_mw);  DC: pl_mw = 0 (trafo3w: = p_hv+p_mv+p_lv = star-point iron losses, if any),
-generation - consumption = sum(pl_mw)."""
+generation - consumption = sum(pl_mw).
+Composed statement (C03_conservation_composed_with_C01): nets of the C01 generator with voltage-dependent (ZIP) loads; the C01 net term,
+the ppci branch rows and the solved voltages go through C03.ComposeModel.run_conservation, whose total generation - consumption, total
+losses, guard G03 and Newton mismatch per bus are compared with the result tables / the python guards; where G03 holds at every bus the
+tables must satisfy generation - consumption = sum(pl_mw)."""
 import json, math, os, glob, cmath
 import numpy as np
 import pandapower as pp
@@ -15,12 +19,12 @@ from pandapower.pypower.idx_brch import F_BUS, T_BUS, BR_R, BR_X, BR_B, BR_G, TA
     BR_G_ASYM, BR_B_ASYM, PF, QF, PT, QT
 from pandapower.pypower.idx_bus import VM, VA
 
-RULE = ("passive networks from vf/c02_gen.gen_desc(passive=True): r, g, pfe >= 0, symmetric impedances, arbitrary reactances / "
+RULE = ("(a) passive networks from vf/c02_gen.gen_desc(passive=True): r, g, pfe >= 0, symmetric impedances, arbitrary reactances / "
         "susceptances, phase shifters (shift 0/150/+-30, ideal and cross regulators), 2W/3W transformers t/pi model, xward, "
-        "impedance switches, shunts, wards, sgens, PV gens (also at the slack bus), shunts/wards directly at the slack bus, 25 % nets with one ext_grid, no gens and purely resistive shunts run with numba=True (single-slack pfsoln); non-trivial = converged net with a phase shift or tap off neutral")
+        "impedance switches, shunts, wards, sgens, PV gens (also at the slack bus), shunts/wards directly at the slack bus, 25 % nets with one ext_grid, no gens and purely resistive shunts run with numba=True (single-slack pfsoln); non-trivial = converged net with a phase shift or tap off neutral; (b) 20 nets of the C01 generator (2-8 buses, fused sections, gens, ZIP loads sharing buses, sgens, storages, wards, shunts; no xward / dcline), voltage_depend_loads on in 80 %: composed conservation statement")
 ASSUMPTIONS = ["runpp / rundcpp are oracles (their voltages are inputs of the loss stage)",
-               "nodal power balance at every bus (C01, other builder) is the hypothesis of C03_global_conservation; here the global sum is "
-               "checked on the result tables of generated nets with constant-power loads only"]
+               "C03_conservation_composed_with_C01 takes zero Newton mismatch and the C01 guard G03 as hypotheses; on generated nets the mismatch "
+               "is the solver tolerance (checked < 1e-5 MW per bus) and G03 is evaluated per bus (model and python re-implementation)"]
 TRUSTED = ["mapping of result tables to generation / consumption / losses in harness/props/c03.py"]
 # the defect C03-dc-trafo3w-star-pfe (pl_mw = 0 although the DC model keeps the star-point iron losses) was repaired in /repo
 
@@ -176,9 +180,103 @@ def _compare(ctx, pend, model):
             ctx.disagreement("ppc branch %d: negative dissipation %.10g" % (k, m[1]), d)
 
 
+def _composed_case(ctx, rng, cterms, cpend, given=None):
+    """net of the C01 generator with ZIP loads -> run_conservation (C03/ComposeModel.v)"""
+    from vf import c01_pf as pf
+    from pandapower.pypower.idx_bus import BASE_KV
+    if given is None:
+        net = pf.gen_net(rng, rich=rng.choice([0.5, 0.8, 1.0]), n_gen=2, two_eg_p=0.25, allow_xward=False, zip_p=0.7,
+                         share=rng.choice([0.3, 0.7]))
+        opts = {"numba": False, "voltage_depend_loads": rng.random() < 0.8, "calculate_voltage_angles": True}
+    else:
+        net, opts = given
+    net_js = pp.to_json(net)
+    case = {"composed_net": net_js, "opts": opts}
+    try:
+        pp.runpp(net, **opts)
+    except Exception as e:
+        ctx.count("composed_raised_" + type(e).__name__)
+        return
+    if len(net.xward) or len(net.dcline) or "V" not in net._ppc["internal"]:
+        ctx.count("composed_skipped")
+        return
+    x = pf.extract(net)
+    pf.impl_res(net, x)
+    I = net._ppc["internal"]
+    br = I["branch"]
+    V = np.asarray(I["V"])
+    c30 = lambda z: "(mkC %s %s)" % (cq.q(float(z.real), 30), cq.q(float(z.imag), 30))
+    c40 = lambda z: "(mkC %s %s)" % (cq.q(float(z.real), 44), cq.q(float(z.imag), 44))   # Y ~ 1e3..1e4 pu: 30 bits of V would cost 1e-6 MW
+    rows = []
+    for k in range(br.shape[0]):
+        row = br[k].real
+        f, t = int(row[F_BUS]), int(row[T_BUS])
+        e = cmath.exp(1j * math.pi / 180 * row[SHIFT])
+        rows.append("(mk_prow %s %s %s %s %s)" % (cq.nat(f), cq.nat(t), " ".join(cq.q(float(row[c]), 40) for c in (BR_R, BR_X, BR_G, BR_B, BR_R_ASYM, BR_X_ASYM, BR_G_ASYM, BR_B_ASYM, TAP, SHIFT)),
+                                                 c30(e), g.q(float(I["bus"][t, BASE_KV].real))))
+    cterms.append("run_conservation %s %s %s %s %s %s" % (pf.net_term(x), pf.ref_term(x), cq.lst(rows), cq.lst([c40(complex(v)) for v in V]),
+                                                          pf.vs_term(x), cq.nat(x.nb)))
+    # result tables: consumption - generation summed over every element table, losses of every branch table
+    E = pf.element_sums_by_bus(net, x)
+    gen_minus_cons = -sum(v.real for v in E.values())
+    loss = 0.0
+    for t_ in ("line", "trafo", "trafo3w", "impedance"):
+        if len(net[t_]):
+            loss += float(np.nansum(net["res_" + t_].pl_mw.values))
+    guards = [pf.py_guards(x, k) for k in range(x.nb)]
+    g03 = []
+    for k, (g01p, _, _, _, has_gen, is_ref) in enumerate(guards):
+        gens_k = [d_ for d_ in x.gens if d_["bus"] == k and d_["on"]]
+        split_ok = len(gens_k) == 1 or (len(gens_k) > 1 and any(d_["ref"] for d_ in gens_k))
+        g03.append(bool(g01p and (not (is_ref and has_gen) or split_ok)))
+    cpend.append((case, gen_minus_cons, loss, g03))
+    zip_buses = sum(1 for k in range(x.nb) if x.vdl and any(d_["bus"] == k and d_["on"] and (d_["czp"] or d_["cip"]) for d_ in x.loads))
+    ctx.count("composed_nets_vdl_%s" % x.vdl)
+    ctx.count("composed_zip_buses", zip_buses)
+    ctx.case({"net_sha": __import__("hashlib").sha1(net_js.encode()).hexdigest()}, nontrivial=x.vdl and zip_buses > 0)
+    # oracle on the tables, under the guard (a failing G03 is C01's recorded ZIP-averaging finding, left to that property)
+    if all(g03):
+        ctx.count("composed_guard_holds")
+        if abs(gen_minus_cons - loss) > 1e-6 * max(1.0, abs(loss), abs(gen_minus_cons)):
+            ctx.violation("spec", "AC with voltage-dependent loads: generation - consumption = %.9g but the reported branch losses sum to %.9g "
+                                  "(every bus meets the guard G03)" % (gen_minus_cons, loss), case)
+    else:
+        ctx.count("composed_guard_fails_left_to_C01")
+
+
+def _composed_compare(ctx, cpend, cmodel):
+    for (case, gmc, loss, g03), m in zip(cpend, cmodel):
+        ctx.corr_checked += 1
+        if isinstance(m, cq.Err):
+            ctx.disagreement("composed conservation: model raises %s" % m, case)
+            continue
+        gmc_m, loss_m, g03_m, mism = m
+        bad = []
+        if not g.close(gmc, float(gmc_m), 1e-6, 2e-6):
+            bad.append("generation - consumption tables %.9g model %.9g" % (gmc, float(gmc_m)))
+        if not g.close(loss, float(loss_m), 1e-6, 2e-6):
+            bad.append("sum of losses tables %.9g model %.9g" % (loss, float(loss_m)))
+        if [bool(b_) for b_ in g03_m] != g03:
+            bad.append("guard G03 python %r model %r" % (g03, g03_m))
+        worst = max([abs(float(v)) for v in mism] + [0.0])
+        if worst > 1e-4:
+            bad.append("Newton P mismatch of the converged run evaluated by the model is %.3g MW" % worst)
+        # the composed theorem on the model's own numbers: guards + (almost) zero mismatch => totals agree up to the summed mismatch
+        if all(g03_m) and abs(float(gmc_m) - float(loss_m)) > len(mism) * max(worst, 1e-9) + 1e-7:
+            bad.append("model: generation - consumption %.9g != losses %.9g although G03 holds and the mismatch is %.3g" % (float(gmc_m), float(loss_m), worst))
+        if bad:
+            ctx.disagreement("composed conservation: " + "; ".join(bad[:3]), case)
+
+
 def run(ctx):
     rng = ctx.rng
     terms, pend = [], []
+    cterms, cpend = [], []
+    for k in range(ctx.n(20, 600)):
+        _composed_case(ctx, rng, cterms, cpend)
+    if cterms:
+        cmodel = ctx.coq_eval("c03c", "Base.QN Base.QC C01.Model C01.YbusModel C01.BranchModel C03.ComposeModel", cterms, shard=2, timeout=900)
+        _composed_compare(ctx, cpend, cmodel)
     for f in sorted(glob.glob(os.path.join(cq.VERIF, "corpus", "C03", "*.json"))):
         _one(ctx, json.load(open(f))["desc"], terms, pend, sample=True)
         ctx.count("corpus")
@@ -189,6 +287,12 @@ def run(ctx):
 
 
 def replay(ctx, rec):
+    if "composed_net" in rec["case"]:
+        cterms, cpend = [], []
+        _composed_case(ctx, ctx.rng, cterms, cpend, given=(pp.from_json_string(rec["case"]["composed_net"]), rec["case"]["opts"]))
+        if cterms:
+            _composed_compare(ctx, cpend, ctx.coq_eval("c03c", "Base.QN Base.QC C01.Model C01.YbusModel C01.BranchModel C03.ComposeModel", cterms, shard=2, timeout=900))
+        return
     terms, pend = [], []
     _one(ctx, rec["case"], terms, pend, sample=True)
     model = ctx.coq_eval("c03", "Base.QN Base.QC C31.Model C02.Model C03.Model", terms, shard=30, timeout=900)
